@@ -63,3 +63,7 @@ def run(chk, st, tier):
                             "(magic, footer length, thrift footer, schema tree vs column chunks, offsets, sizes, value/row counts, level sections, page boundaries, records per page <= page size). "
                             "distinct = distinct (shape,codec,page size,history with values); non-trivial = at least one record.")
     chk.coverage["explanation"] = "check_file is the executable definition of validity; see coq/props/C02.v for what is proved about the writer model against it."
+
+
+def replay(chk, st, data):
+    Fm.replay_workload(chk, data, [oracle], read=False)
